@@ -23,6 +23,7 @@ THEOREMS = ['C12_expand_shorthand', 'C12_interpolates_evenly_spaced',
             'C12_keywords_importance', 'C12_particle_dictionary',
             'C12_option_tokens_words', 'C12_importance_of_cell',
             'C12_importance_missing_refused', 'C12_skipped_iff_zero',
+            'C12_note_order',
             'C12_converted_iff_nonzero', 'C12_data_card_max_zero',
             'C12_chain_zero_iff', 'C12_option_tokens_app',
             'C12_last_value_app', 'C12_like_written_zero_iff',
@@ -717,17 +718,19 @@ def conversion_sweep(res, rng, n_decks, n_guard):
                 cases.append(cpair(g.c_pcase(deck, (), result),
                                    clist(cz(k) for k in volu),
                                    copt(note, lambda l: clist(cz(k)
-                                                              for k in l))))
+                                                              for k in l)),
+                                   clist(cstr(line) for line in
+                                         g.note_bytes_lines(conv.stdout))))
                 meta.append((deck, text))
     if meta:
         res.sample({'deck': meta[0][1],
                     'abstract': [(c['id'], c['values'])
                                  for c in meta[0][0]['cells']]})
     bad, errs = run_cases('c12_conv', HEADER,
-                                      'pcase * list Z * option (list Z)',
+                                      'pcase * list Z * option (list Z) * list string',
                                       'check_conv', cases, chunk=100)
     res.obligation(f'tie:conv ({len(cases)} conversions: Model.written_ids = '
-                   'VOLU ids of the written file, Model.note = NOTE list)', not bad and not errs,
+                   'VOLU ids of the written file, Model.note_lines = bytes of the NOTE)', not bad and not errs,
                    f'{len(bad)} disagreements {errs[:1]}')
     for idx in bad[:10]:
         deck, text = meta[idx]
